@@ -1,7 +1,7 @@
 (* Props/C01.v -- Concurrent commits are serializable: no acknowledged write lost or duplicated.
    Statements only; proofs are in Proofs/CommitProofs.v. *)
 From Coq Require Import ZArith List Bool Arith.
-Require Import DS.Model.Commit DS.Proofs.CommitProofs.
+Require Import DS.Model.CommitBase DS.Gen.GenCommit DS.Model.Commit DS.Proofs.CommitGenProofs DS.Proofs.CommitProofs.
 Import ListNotations.
 Open Scope Z_scope.
 
@@ -55,6 +55,37 @@ Proof.
   intros c m0 kind mr evs S w. destruct (reach_inv c m0 kind mr evs S) as [I _]. split; apply I.
 Qed.
 Print Assumptions C01_chain_linear.
+
+(* The machine the theorems above are about is the protocol the SOURCE performs: the success path of `step`
+   (lock, validating read -- on conditional-write storage the read that also yields the ETag --, stamp + metadata
+   write, fence, commit-point write, release in the `finally`) is, action for action, the skeleton the translator
+   regenerates from MetadataManager.commit on every run, and that path is enabled and leads to an acknowledged
+   commit from every state with an idle committer and a free lock.  The validation compares both stamp fields and
+   the stamp strictly increases along the chain (the two facts C01_serializable's invariant rests on) -- as
+   properties of the REGENERATED kernels gen_stamp_eqb / gen_new_lu. *)
+Theorem C01_skeleton_regenerated :
+  model_path true = gen_commit_path_cas /\ model_path false = gen_commit_path_plain
+  /\ (forall cc cl bc bl, gen_stamp_eqb cc cl bc bl = true <-> (cc = bc /\ cl = bl))
+  /\ (forall now cl, cl < gen_new_lu now cl)
+  /\ (forall c w b (now : Z), a_pc (w_actors w b) = PIdle -> (lockkind c = GrantAll \/ w_lock w = None) ->
+       exists evs w',
+         flat_map (actions_of (cas c)) (map e_kind evs) = (if cas c then gen_commit_path_cas else gen_commit_path_plain)
+         /\ Forall (fun e => e_actor e = b) evs
+         /\ run_strict c w ({| e_actor := b; e_kind := EBegin (w_ptr w) |} :: evs) 0 = inl w'
+         /\ a_pc (w_actors w' b) = PDone Success /\ w_ptr w' = length (w_files w)).
+Proof.
+  split; [exact model_path_cas_regenerated|]. split; [exact model_path_plain_regenerated|].
+  split; [exact gen_stamp_eqb_spec|]. split; [exact gen_new_lu_gt|]. exact regenerated_skeleton_runs.
+Qed.
+Print Assumptions C01_skeleton_regenerated.
+
+(* A conflict is retried against a freshly read base up to the regenerated attempt bound, then reported after a
+   rollback; every exception class is handled (nothing leaves commit() with the transaction still active). *)
+Theorem C01_conflict_retried :
+  gen_tx_on XConflict false = TxRetry /\ gen_tx_on XConflict true = TxRollbackDelete /\ (0 < gen_max_retries)%nat
+  /\ (forall e last, gen_tx_on e last <> TxPropagate).
+Proof. destruct conflict_retries as [A [B C]]. repeat split; try assumption. exact every_class_finishes. Qed.
+Print Assumptions C01_conflict_retried.
 
 (* Non-vacuity: a concrete schedule on the exclusive-lock configuration with a FROZEN clock in which
    a metadata-only commit (actor 1) lands between actor 0's base read and its validation: actor 0
